@@ -48,49 +48,48 @@ def inGap (v gapStart : Nat) : Bool := v > gapStart + maxSmallTs
 
 def lineStart (p : Nat) (metaPos : Nat) : Nat := metaPos + metaSize p
 
-def getE (es : List IEntry) (i : Nat) : R IEntry :=
-  match es[i]? with
-  | some e => .ok e
-  | none => .error .panic                          -- index out of bounds
-
 /-- `Index::start_search_bounds` -/
-def startSearchBounds (v : DataView) (startTs : Nat) : R (StartArea × Nat) := do
-  let (hit, i) := bsearch v.entries startTs
-  if hit then
-    let e ← getE v.entries i
-    return (.found (lineStart v.p e.off), startTs)
-  if i = 0 then
-    let e ← getE v.entries 0
-    return (.clipped, e.ts)
-  if i = v.entries.length then
-    let e ← getE v.entries (i - 1)
-    return (.tillEnd (lineStart v.p e.off), e.ts)
-  let prev ← getE v.entries (i - 1)
-  let next ← getE v.entries i
-  if inGap startTs prev.ts then
-    return (.gap (lineStart v.p next.off), next.ts)
-  if startTs ≥ next.ts then
-    return (.gap (lineStart v.p next.off), next.ts)
+def startSearchBounds (v : DataView) (startTs : Nat) : R (StartArea × Nat) :=
+  let i := (bsearch v.entries startTs).2
+  if (bsearch v.entries startTs).1 then
+    match v.entries[i]? with
+    | some e => .ok (.found (lineStart v.p e.off), startTs)
+    | none => .error .panic
+  else if i = 0 then
+    match v.entries[0]? with
+    | some e => .ok (.clipped, e.ts)
+    | none => .error .panic
+  else if i = v.entries.length then
+    match v.entries[i - 1]? with
+    | some e => .ok (.tillEnd (lineStart v.p e.off), e.ts)
+    | none => .error .panic
   else
-    return (.window (lineStart v.p prev.off) next.off, prev.ts)
+    match v.entries[i - 1]?, v.entries[i]? with
+    | some prev, some next =>
+      if inGap startTs prev.ts then .ok (.gap (lineStart v.p next.off), next.ts)
+      else if startTs ≥ next.ts then .ok (.gap (lineStart v.p next.off), next.ts)
+      else .ok (.window (lineStart v.p prev.off) next.off, prev.ts)
+    | _, _ => .error .panic
 
 /-- `Index::end_search_bounds` (after the fix: a bound inside a gap ends the read
 where the section after the gap begins) -/
-def endSearchBounds (v : DataView) (endTs : Nat) : R (EndArea × Nat) := do
-  let (hit, i) := bsearch v.entries endTs
-  if hit then
-    let e ← getE v.entries i
-    return (.found (lineStart v.p e.off), e.ts)
-  if i = 0 then .error .panic                          -- `assert!(end > 0)`
+def endSearchBounds (v : DataView) (endTs : Nat) : R (EndArea × Nat) :=
+  let i := (bsearch v.entries endTs).2
+  if (bsearch v.entries endTs).1 then
+    match v.entries[i]? with
+    | some e => .ok (.found (lineStart v.p e.off), e.ts)
+    | none => .error .panic
+  else if i = 0 then .error .panic                          -- `assert!(end > 0)`
+  else if i = v.entries.length then
+    match v.entries[i - 1]? with
+    | some e => .ok (.tillEnd (lineStart v.p e.off), e.ts)
+    | none => .error .panic
   else
-  if i = v.entries.length then
-    let e ← getE v.entries (i - 1)
-    return (.tillEnd (lineStart v.p e.off), e.ts)
-  let prev ← getE v.entries (i - 1)
-  let next ← getE v.entries i
-  if inGap endTs prev.ts then
-    return (.gap next.off, prev.ts)
-  return (.window (lineStart v.p prev.off) next.off, prev.ts)
+    match v.entries[i - 1]?, v.entries[i]? with
+    | some prev, some next =>
+      if inGap endTs prev.ts then .ok (.gap next.off, prev.ts)
+      else .ok (.window (lineStart v.p prev.off) next.off, prev.ts)
+    | _, _ => .error .panic
 
 /-- `Data::range()` -/
 def dataRange (v : DataView) : R (Option (Nat × Nat)) :=
@@ -194,27 +193,35 @@ structure Pos where
   firstFull : Nat
 deriving Repr, DecidableEq
 
+/-- first half of `RoughPos::refine`: the byte the read starts at -/
+def refineStart (v : DataView) (d : Bytes) (r : RoughPos) : R Nat :=
+  match r.startArea with
+  | .found pos => pure pos
+  | .gap pos => pure pos
+  | .clipped => pure (lineStart v.p 0)
+  | .tillEnd start => do
+    let s ← smallOf r.startTs r.startFull
+    pure (findReadStart v.p d s start v.dataLen)
+  | .window start stop => do
+    let s ← smallOf r.startTs r.startFull
+    pure (findReadStart v.p d s start stop)
+
+/-- second half of `RoughPos::refine`: the byte the read stops before -/
+def refineEnd (v : DataView) (d : Bytes) (r : RoughPos) : R Nat :=
+  match r.endArea with
+  | .found pos => pure (pos + lineSize v.p)
+  | .gap pos => pure pos
+  | .tillEnd start => do
+    let s ← smallOf r.endTs r.endFull
+    findReadEnd v.p d s start v.dataLen
+  | .window start stop => do
+    let s ← smallOf r.endTs r.endFull
+    findReadEnd v.p d s start stop
+
 /-- `RoughPos::refine`; `d` is the data region -/
 def refine (v : DataView) (d : Bytes) (r : RoughPos) : R (Option Pos) := do
-  let startByte ← match r.startArea with
-    | .found pos => pure pos
-    | .gap pos => pure pos
-    | .clipped => pure (lineStart v.p 0)
-    | .tillEnd start => do
-      let s ← smallOf r.startTs r.startFull
-      pure (findReadStart v.p d s start v.dataLen)
-    | .window start stop => do
-      let s ← smallOf r.startTs r.startFull
-      pure (findReadStart v.p d s start stop)
-  let endByte ← match r.endArea with
-    | .found pos => pure (pos + lineSize v.p)
-    | .gap pos => pure pos
-    | .tillEnd start => do
-      let s ← smallOf r.endTs r.endFull
-      findReadEnd v.p d s start v.dataLen
-    | .window start stop => do
-      let s ← smallOf r.endTs r.endFull
-      findReadEnd v.p d s start stop
+  let startByte ← refineStart v d r
+  let endByte ← refineEnd v d r
   if endByte ≤ startByte then return none
   else return some ⟨startByte, endByte, r.startFull⟩
 
